@@ -46,6 +46,7 @@ func (w *World) extraChecks(id string, opts *RunOpts) *Extra {
 		w.mapRanges(opts, ex)
 	}
 	if id == "C18" {
+		w.deferredErrorStores(id, opts, ex)
 		w.errorPropagation(opts, ex)
 	}
 	return ex
